@@ -60,6 +60,7 @@ class LockStep(Model):
         world.reset_all()
         self.ref = RefWorld()
         self.disjoint_live = True
+        self._root, self._hist = root, []
         if root == 'rich':
             # a second resident graph H with the same NodeIDs (for matching / merging) and a populated G
             for ev in (('add_node', 'a', 'NetworkNode', 'p'), ('add_node', 'b', 'Link', 'p'), ('add_link', 'a', 'b', 'has', 'n')):
@@ -74,15 +75,18 @@ class LockStep(Model):
             for ev in (('add_node', 'a', 'NetworkNode', 'p'), ('add_node', 'b', 'NetworkNode', 'n'),
                        ('add_link', 'a', 'b', 'connects', 'p')):
                 self.apply(ev)
+        self._hist = []
 
+    # a state is its history: restoring replays the calls on freshly constructed stores (copying the stores' containers
+    # would repair anything that hangs on object identity inside them)
     def snapshot(self):
-        return (world.snapshot_shared(), world.snapshot_disjoint(), self.ref.clone(), self.disjoint_live)
+        return (self._root, tuple(self._hist))
 
     def restore(self, snap):
-        world.restore_shared(snap[0])
-        world.restore_disjoint(snap[1])
-        self.ref = snap[2].clone()
-        self.disjoint_live = snap[3]
+        hist = list(snap[1])
+        self.build_root(snap[0])
+        for ev in hist:
+            self.apply(ev)
 
     def canon(self):
         return (self.ref.canon(), self.disjoint_live)
@@ -192,6 +196,7 @@ class LockStep(Model):
         raise AssertionError(ev)
 
     def apply(self, ev):
+        self._hist = getattr(self, '_hist', []) + [ev]
         out = {}
         for fl in self.flavours():
             try:
